@@ -496,13 +496,6 @@ func c01MemLine(syms []*c01Sym, rows []*c01Row, f *c01Node) string {
 	return b.String()
 }
 
-func c01Mix(seed uint64) uint64 {
-	z := (seed + 0x632BE59BD9B4E019) * 0xD6E8FEB86659FD93
-	z = (z ^ (z >> 32)) * 0xD6E8FEB86659FD93
-	z = (z ^ (z >> 32)) * 0xD6E8FEB86659FD93
-	return z ^ (z >> 32)
-}
-
 func bytesWithout(bs []byte, x byte) []byte {
 	var out []byte
 	for _, b := range bs {
@@ -525,14 +518,11 @@ func c01Gen(tier string, seed uint64, out *bufio.Writer) {
 		c01GenCorpus(out)
 		return
 	}
-	// newRng(seed) starts seed k exactly k draws into one splitmix64 stream, so generators whose
-	// draw counts realign produce the same cases for every seed; start from a mixed state instead
 	r := newRng(seed)
-	r.s = c01Mix(seed)
 	nMem, nBolt := 14000, 5000
 	depth := 3
 	if tier == "thorough" {
-		nMem, nBolt, depth = 90000, 30000, 5
+		nMem, nBolt, depth = 60000, 20000, 5
 	}
 	g := &c01Gen_{r: r, illRate: 6}
 	sc := c01SchemaOf(c01MemSyms)
